@@ -104,7 +104,10 @@ func TestExhaustive(t *testing.T) {
 	if shards < 1 {
 		shards = 1
 	}
-	const maxLen = 14
+	maxLen := 14
+	if os.Getenv("VERIF_TIER") == "thorough" {
+		maxLen = 17
+	}
 	n := 0
 	for capn := 1; capn <= 8; capn++ {
 		if (capn-1)%shards != shard {
@@ -125,7 +128,7 @@ func TestExhaustive(t *testing.T) {
 			}
 		}
 	}
-	R.Exhaustive("sequential: every sequence over {Add, Snapshot} of length 1..14 for each capacity 1..8 (8 x (2^15 - 2) sequences)")
+	R.Exhaustive(fmt.Sprintf("sequential: every sequence over {Add, Snapshot} of length 1..%d for each capacity 1..8 (8 x (2^%d - 2) sequences)", maxLen, maxLen+1))
 }
 
 func genLong(t *rapid.T) SeqCase {
